@@ -13,11 +13,20 @@ use serde_json::json;
 pub struct C03;
 
 #[derive(Clone, Debug, Serialize, Deserialize)]
-pub struct Case {
+pub struct TextCase {
     pub log: TextLog,
     pub codec: Codec,
     pub bs: u64,
     pub wins: Vec<WinSpec>,
+}
+
+/// the window semantics are the same for every kind of source: the other kinds reuse the oracles of C08/C10/C09
+#[derive(Clone, Debug, Serialize, Deserialize)]
+pub enum Case {
+    Text(TextCase),
+    Records(crate::props::c08::Case),
+    Evtx(crate::props::c10::Case),
+    Journal(crate::props::c09::Case),
 }
 
 /// expected stdout for a text log under a window: selected messages in file order, final newline supplied
@@ -43,26 +52,45 @@ impl Property for C03 {
         "C03"
     }
     fn rule(&self) -> String {
-        "case = chronologically ordered generated text log (ties frequent; message lengths 30 B..several blocks) stored plain (binary search) or gz/bz2/xz/lz4/tar (linear scan) x block size 64..65536 x 1..4 windows whose bounds are placed relative to message instants (on an instant, +-1us, +-1ms, +-1s, between, before first, after last, A=B, A only, B only); oracle: stdout == {m : A<=t(m)<=B} in file order from the generator's instants, exit status 0 also for empty selections. non-trivial = window cuts the source (0<selected<all) or a bound equals a message instant; distinct = hash(file bytes, codec, block size, resolved window). Accounting/evtx/journal windows are exercised by the same inclusive-filter oracle inside the C08/C10/C09 checks.".into()
+        "case = chronologically ordered generated text log (ties frequent; message lengths 30 B..several blocks) stored plain (binary search) or gz/bz2/xz/lz4/tar (linear scan) x block size 64..65536 x 1..4 windows whose bounds are placed relative to message instants (on an instant, +-1us, +-1ms, +-1s, between, before first, after last, A=B, A only, B only); oracle: stdout == {m : A<=t(m)<=B} in file order from the generator's instants, exit status 0 also for empty selections. non-trivial = window cuts the source (0<selected<all) or a bound equals a message instant; distinct = hash(file bytes, codec, block size, resolved window). 40% of the cases are accounting-record files (any order, 15 layouts), the shipped evtx file and the shipped journals with windows placed relative to their record/entry times, decided by the reference models of C08/C10/C09 (stable time order + inclusive filter; independent readers evtx crate / journalctl).".into()
     }
     fn assumptions(&self) -> Vec<String> {
         vec!["window bounds are passed as %Y-%m-%dT%H:%M:%S.%6f+00:00 (the finest resolution the CLI accepts)".into(), "files outside the block-zero acceptance heuristic excluded (F6)".into()]
     }
     fn cases(&self, tier: Tier) -> u32 {
-        tier.pick(350, 7000)
+        tier.pick(600, 10000)
     }
     fn strategy(&self, tier: Tier) -> BoxedStrategy<Case> {
         let max_msgs = tier.pick(40, 150);
         let bs = prop_oneof![3 => 64u64..300, 2 => 300u64..5000, 1 => Just(65536u64), 1 => 5000u64..70000];
-        (bs, any_codec_or_plain())
+        let text = (bs, any_codec_or_plain())
             .prop_flat_map(move |(bs, codec)| {
                 let p = TextParams { min_msgs: 1, max_msgs, steer_bs: bs.min(4096) as usize, max_mult: 3, accept_bs: vec![bs], ..TextParams::default() };
                 (text_log(p), Just(bs), Just(codec), prop::collection::vec(win_spec(), 1..=4))
             })
-            .prop_map(|(log, bs, codec, wins)| Case { log, codec, bs, wins })
-            .boxed()
+            .prop_map(|(log, bs, codec, wins)| Case::Text(TextCase { log, codec, bs, wins }));
+        // accounting records, event logs and journals: always with a window
+        let recs = crate::props::c08::C08.strategy(tier).prop_flat_map(|c| (Just(c), win_spec())).prop_map(|(mut c, w)| {
+            c.win = Some(w);
+            Case::Records(c)
+        });
+        let evtx = crate::props::c10::C10.strategy(tier).prop_flat_map(|c| (Just(c), win_spec())).prop_map(|(mut c, w)| {
+            c.win = Some(w);
+            Case::Evtx(c)
+        });
+        let journal = crate::props::c09::C09.strategy(tier).prop_flat_map(|c| (Just(c), win_spec())).prop_map(|(mut c, w)| {
+            c.win = Some(w);
+            Case::Journal(c)
+        });
+        prop_oneof![6 => text, 2 => recs, 1 => evtx, 1 => journal].boxed()
     }
-    fn exec(&self, case: &Case, _ctx: &Ctx) -> Outcome {
+    fn exec(&self, case: &Case, ctx: &Ctx) -> Outcome {
+        let case = match case {
+            Case::Text(t) => t,
+            Case::Records(c) => return crate::props::c08::C08.exec(c, ctx).class("kind:accounting-records"),
+            Case::Evtx(c) => return crate::props::c10::C10.exec(c, ctx).class("kind:evtx"),
+            Case::Journal(c) => return crate::props::c09::C09.exec(c, ctx).class("kind:journal"),
+        };
         let r = case.log.render();
         if case.log.msgs.is_empty() {
             return Outcome::discard("no messages");
@@ -132,7 +160,7 @@ impl Property for C03 {
                 o_classes.push("one-sided");
             }
         }
-        let mut o = Outcome::pass(nontrivial, key);
+        let mut o = Outcome::pass(nontrivial, key).class("kind:text");
         o.evals = evals;
         o_classes.sort();
         o_classes.dedup();
